@@ -24,7 +24,7 @@ def design(ctx):
         raise Machinery("the control configuration of Nonce does not refute NoReuse: the invariant does not rest on the rate cap")
     ctx.extra["control_refuted"] = "NoReuse refuted in %d steps when the ring wraps within one second" % len(ctl.trace)
     if not ctx.quick:
-        r2 = ctx.mc("Nonce", "SPECIFICATION Spec\nCONSTANTS\n M = 7\n Interval = 2\n TicksPerSecond = 13\n MaxTime = 40\nPROPERTY NoReuse\nINVARIANT NeverZero\nCHECK_DEADLOCK FALSE\n",
+        r2 = ctx.mc("Nonce", "SPECIFICATION Spec\nCONSTANTS\n M = 7\n Interval = 2\n TicksPerSecond = 13\n MaxTime = 28\nPROPERTY NoReuse\nINVARIANT NeverZero\nCHECK_DEADLOCK FALSE\n",
                     label="Nonce M=7 interval=2 second=13 ticks")
         if not r2.ok:
             ctx.fail("Nonce model: %s violated" % r2.violation["name"], dict(trace=r2.trace[-8:]))
